@@ -358,3 +358,80 @@ def drop_guard(ctx, facts, rule):
             loud = True
     pan = [bb for bb in b.live_blocks() if b.term(bb)["k"] == "call" and b.term(bb)["t"] is None]
     ctx.ob(rule, "drop:loud", loud or bool(pan), "an unverified validator panics on drop" if loud or pan else "the result of is_verified() is ignored in drop", site_of(b))
+
+
+def dzkp_validate_path(ctx, facts, rule):
+    """The proof check is actually reached: validate_indexed returns what Batch::validate returns; Batch::validate
+    returns Ok early only for an empty batch and otherwise returns BatchToVerify::verify's result; check_zero returns
+    (opened r*v == 0)."""
+    ctx.rule(f"{rule}: MaliciousDZKPValidator::validate_indexed returns the awaited Batch::validate(into_single_batch()) result; Batch::validate returns Ok without proving only when the batch is empty, otherwise its result is BatchToVerify::verify(..).await; malicious_check_zero returns ct_eq(open(r*v), ZERO)")
+    # 1. validate_indexed
+    vb = None
+    for b in facts.tree("<protocol::context::dzkp_validator::MaliciousDZKPValidator<'a, B> as protocol::context::dzkp_validator::DZKPValidator>::validate_indexed"):
+        if flow.find_calls(b, re.compile(r"dzkp_validator::Batch::validate$")):
+            vb = b
+    if vb is None:
+        ctx.missing(rule, "MaliciousDZKPValidator::validate_indexed")
+    else:
+        ctx.count(bodies=1)
+        c = flow.find_calls(vb, re.compile(r"dzkp_validator::Batch::validate$"))[0]
+        st = flow.settled(vb, c[0])
+        recv = str(flow.expr_of(vb, c[1]["args"][0]))
+        ok = st is not None and "into_single_batch" in recv
+        ret_ok = False
+        if st and st["out"] is not None:
+            al = flow.local_aliases_fwd(vb, st["out"])
+            for bb, idx, s_ in vb.iter_assigns():
+                if s_["p"] == [0] and s_["r"]["k"] == "use" and F.op_local(s_["r"]["o"]) in al:
+                    ret_ok = True
+        ctx.ob(rule, "validate_indexed:returns-batch-validate", ok and ret_ok, "the validator's verdict is the batch proof's verdict" if ok and ret_ok else "validate_indexed does not return the result of Batch::validate on its batch (proof verdict dropped)", site_of(vb, c[0]))
+    # 2. Batch::validate
+    bb_ = None
+    for b in facts.tree("protocol::context::dzkp_validator::Batch::validate"):
+        if b.coroutine:
+            bb_ = b
+    if bb_ is None:
+        ctx.missing(rule, "Batch::validate")
+    else:
+        ctx.count(bodies=1)
+        dom = bb_.dominators()
+        ver = flow.find_calls(bb_, re.compile(r"validation::BatchToVerify::verify$"))
+        emp = guards(bb_, r"dzkp_validator::Batch::is_empty$")
+        st = flow.settled(bb_, ver[0][0]) if ver else None
+        okv = st is not None
+        ret_ok = False
+        if st and st["out"] is not None:
+            al = flow.local_aliases_fwd(bb_, st["out"])
+            for x, idx, s_ in bb_.iter_assigns():
+                if s_["p"] == [0] and s_["r"]["k"] == "use" and F.op_local(s_["r"]["o"]) in al:
+                    ret_ok = True
+            if st["q"] is not None:
+                ret_ok = True
+        ctx.ob(rule, "Batch::validate:returns-verify", okv and ret_ok, "a non-empty batch's result is BatchToVerify::verify(..).await" if okv and ret_ok else "Batch::validate does not return the verifier's verdict", site_of(bb_, ver[0][0]) if ver else site_of(bb_))
+        early = []
+        for ob_ in ok_blocks(bb_):
+            if st and (flow.dominates(dom, st["ready"], ob_)):
+                continue
+            on_empty = any(ed is not None and flow.dominates(dom, ed[1], ob_) for _, _, ed, _ in emp)
+            if not on_empty:
+                early.append(ob_)
+        ctx.ob(rule, "Batch::validate:ok-only-if-empty-or-verified", not early and bool(emp), "Ok without a proof only for an empty batch" if not early and emp else "Batch::validate can return Ok for a non-empty batch without running the verifier", site_of(bb_, early[0]) if early else site_of(bb_))
+    # 3. check_zero
+    cz = async_body(facts, "protocol::basics::check_zero::malicious_check_zero")
+    if cz is None:
+        ctx.missing(rule, "malicious_check_zero")
+    else:
+        ctx.count(bodies=1)
+        okz = False
+        for ob_ in ok_blocks(cz):
+            for s_ in cz.stmts(ob_):
+                if "p" in s_ and s_["p"] == [0] and s_["r"]["k"] == "agg":
+                    e = str(flow.expr_of(cz, s_["r"]["ops"][0]))
+                    okz = "ct_eq" in e and "malicious_reveal" in e and "ZERO" in e
+        mul = flow.find_calls(cz, re.compile(r"sh_multiply$|semi_honest_multiply$|semi_honest::multiply$"))
+        okm = False
+        if mul:
+            a = str(flow.expr_of(cz, mul[0][1]["args"][2])) + str(flow.expr_of(cz, mul[0][1]["args"][3]))
+            okm = "SharedRandomness::generate" in a and "('arg', 3)" in a or ("generate" in a and "upvar" in a)
+        ctx.ob(rule, "check_zero:verdict", okz, "Ok(opened r*v == 0)" if okz else "check_zero's verdict is not the comparison of the opened product with zero", site_of(cz))
+        ctx.ob(rule, "check_zero:masks-with-random-r", okm, "v is multiplied by a fresh shared random r before opening" if okm else "check_zero opens v without a fresh random mask (leaks v) or does not multiply the input", site_of(cz, mul[0][0]) if mul else site_of(cz))
